@@ -522,7 +522,13 @@ def main():
     rust = run_harness(binary, cases, workdir)
     phase["harness_run_s"] = round(time.time() - t1, 1)
     t1 = time.time()
-    model = run_model(cases, workdir)
+    # a few cases are too large for the list-based model (more than a thousand parameters): they are run
+    # through corgi only and judged by the property's own predicate on corgi's output
+    with_model = [i for i, c in enumerate(cases) if not c.get("skip_model")]
+    sub = run_model([cases[i] for i in with_model], workdir)
+    model = [None] * len(cases)
+    for i, m_ in zip(with_model, sub):
+        model[i] = m_
     phase["model_run_s"] = round(time.time() - t1, 1)
 
     # 3. compare
@@ -535,6 +541,8 @@ def main():
         if c.get("nontrivial", True):
             nontrivial.add(hashlib.sha1(json.dumps(c["instrs"], sort_keys=True, default=str)
                                         .encode()).hexdigest())
+        if m is None:
+            continue
         tol = c.get("rtol", rtol)
         if c.get("scale_tol"):
             big = max([1.0] + [abs(x) for o in m if not isinstance(o, str) for it in o for x in it[2]
@@ -667,6 +675,7 @@ def main():
         "phases_s": phase,
     }
     coverage.update(extra_counts)
+    coverage["programs_judged_by_the_property_predicate_only"] = sum(1 for c in cases if c.get("skip_model"))
     if spec.get("audit"):
         coverage["source_audit"] = audit_source()
     ev = {
